@@ -212,16 +212,11 @@ func cmdCheck(args []string) int {
 	for _, o := range cr.obls {
 		gen[family(o.ID)] = true
 	}
-	if *ledgerOut != "" {
-		fams := map[string]string{}
-		for _, o := range cr.obls {
-			fams[family(o.ID)] = o.Kind
-		}
-		data, _ := json.MarshalIndent(fams, "", " ")
-		os.WriteFile(*ledgerOut, data, 0o644)
-	}
 	var vanished []*Obligation
 	for fam, kind := range ledger.Properties[*prop] {
+		if strings.HasPrefix(kind, "cover:") {
+			continue
+		}
 		if !gen[fam] {
 			o := &Obligation{ID: fam, Kind: kind, Static: true, Result: "failed", Props: []string{*prop},
 				Detail: "obligation recorded in the ledger is no longer generated: contract target missing (function, loop, call site or clause anchor vanished)"}
@@ -280,15 +275,53 @@ func cmdCheck(args []string) int {
 		}
 		violLines = append(violLines, line)
 	}
+	// Vacuity: an infeasible return point is tolerated only if the ledger records that many
+	// dead returns for the function on the pinned tree (defensive dead code); any other
+	// infeasible path means the hypotheses contradict each other.
 	vacuous := 0
+	deadNow := map[string][]*Obligation{}
 	for _, o := range cr.covers {
 		solverTime += o.TimeS
-		if o.Result != "proved" {
+		if o.Result == "proved" {
+			continue
+		}
+		if strings.Contains(o.ID, "#cover.return@") {
+			deadNow[family(o.ID)] = append(deadNow[family(o.ID)], o)
+			continue
+		}
+		vacuous++
+		nViol++
+		path := cr.writeReplay(o)
+		violLines = append(violLines, fmt.Sprintf("VIOLATION property=%s replay=%s obligation=%s vacuous-contract no-failing-input-found", *prop, path, o.ID))
+	}
+	deadLedger := map[string]string{}
+	for _, fam := range sortedKeys(deadNow) {
+		os := deadNow[fam]
+		allowed := 0
+		if k, ok := ledger.Properties[*prop][fam]; ok {
+			fmt.Sscanf(k, "cover:dead=%d", &allowed)
+		}
+		deadLedger[fam] = fmt.Sprintf("cover:dead=%d", len(os))
+		for i, o := range os {
+			if i < allowed {
+				continue
+			}
 			vacuous++
 			nViol++
 			path := cr.writeReplay(o)
-			violLines = append(violLines, fmt.Sprintf("VIOLATION property=%s replay=%s obligation=%s vacuous-contract no-failing-input-found", *prop, path, o.ID))
+			violLines = append(violLines, fmt.Sprintf("VIOLATION property=%s replay=%s obligation=%s return-path-infeasible-under-contracts no-failing-input-found", *prop, path, o.ID))
 		}
+	}
+	if *ledgerOut != "" {
+		fams := map[string]string{}
+		for _, o := range cr.obls {
+			fams[family(o.ID)] = o.Kind
+		}
+		for k, v := range deadLedger {
+			fams[k] = v
+		}
+		data, _ := json.MarshalIndent(fams, "", " ")
+		os.WriteFile(*ledgerOut, data, 0o644)
 	}
 	sort.Strings(kfLines)
 	seenKF := map[string]bool{}
